@@ -248,6 +248,12 @@ def body(chk):
     c15.eval_obligation(chk, 'C18', {})
     from checks import builder_defaults
     builder_defaults.setters(chk, 'C18', which=('retries', 'retry_after', 'max_concurrent_scenarios', 'fail_fast'))
+    # CLI options installed through Cucumber::with_cli() survive the builder methods called afterwards
+    from checks import cucumber_builders
+    cucumber_builders.obligations(chk, 'C18')
+    # between the resolver and the scheduler: Features::insert stores, per scenario, what the resolver said for it in its own rule
+    from checks import insert_retry
+    insert_retry.obligations(chk, 'C18')
 
 
 if __name__ == '__main__':
